@@ -3,8 +3,10 @@ package main
 // sync.Cond and the strings package.
 
 import (
+	"fmt"
 	"go/token"
 	"go/types"
+	"math"
 	"strings"
 
 	"golang.org/x/tools/go/ssa"
@@ -371,5 +373,257 @@ func init() {
 			}
 		}
 		return acc
+	}
+}
+
+// ---------------------------------------------------------------- math (IEEE operations z3 knows)
+
+func init() {
+	un := func(op string) stubFn {
+		return func(t *Thread, fn *ssa.Function, args []Value, pos token.Pos) Value {
+			return t.e.ts.FPUn(op, args[0].(*Term))
+		}
+	}
+	stubs["math.Abs"] = un("fp.abs")
+	stubs["math.Round"] = un("fp.rti.RNA")
+	stubs["math.Floor"] = un("fp.rti.RTN")
+	stubs["math.Ceil"] = un("fp.rti.RTP")
+	stubs["math.Trunc"] = un("fp.rti.RTZ")
+	stubs["math.RoundToEven"] = un("fp.rti.RNE")
+	stubs["math.IsNaN"] = func(t *Thread, fn *ssa.Function, args []Value, pos token.Pos) Value {
+		return t.e.ts.FPIsNaN(args[0].(*Term))
+	}
+	stubs["math.IsInf"] = func(t *Thread, fn *ssa.Function, args []Value, pos token.Pos) Value {
+		ts := t.e.ts
+		f := args[0].(*Term)
+		sign := t.concInt(args[1].(*Term), "math.IsInf.sign", pos)
+		pinf := ts.FPCmp("fp.eq", f, ts.FPConst(f.S.W, math.Inf(1)))
+		ninf := ts.FPCmp("fp.eq", f, ts.FPConst(f.S.W, math.Inf(-1)))
+		switch {
+		case sign > 0:
+			return pinf
+		case sign < 0:
+			return ninf
+		}
+		return ts.Or(pinf, ninf)
+	}
+	stubs["math.Inf"] = func(t *Thread, fn *ssa.Function, args []Value, pos token.Pos) Value {
+		sign := t.concInt(args[0].(*Term), "math.Inf.sign", pos)
+		if sign >= 0 {
+			return t.e.ts.FPConst(64, math.Inf(1))
+		}
+		return t.e.ts.FPConst(64, math.Inf(-1))
+	}
+	stubs["math.NaN"] = func(t *Thread, fn *ssa.Function, args []Value, pos token.Pos) Value {
+		return t.e.ts.FPConst(64, math.NaN())
+	}
+}
+
+// ---------------------------------------------------------------- reflect.DeepEqual, Value.Pointer
+
+// deepEqual follows reflect.DeepEqual: identical pointers/maps are equal, otherwise pointees / contents
+// are compared; a nil and an empty slice (map) differ; floats by ==; funcs only when both nil.
+func (t *Thread) deepEqual(a, b Value, depth int) *Term {
+	e := t.e
+	ts := e.ts
+	if depth > 16 {
+		e.unsupported("reflect.DeepEqual too deep (cyclic?)")
+	}
+	a, b = t.conc(a), t.conc(b)
+	switch x := a.(type) {
+	case nil:
+		return ts.Bool(isNilValue(b))
+	case *Term:
+		y, ok := b.(*Term)
+		if !ok || y.S != x.S {
+			return ts.Bool(false)
+		}
+		if x.S.K == SFP {
+			return ts.FPCmp("fp.eq", x, y)
+		}
+		return ts.Eq(x, y)
+	case Iface:
+		y, ok := b.(Iface)
+		if !ok {
+			return ts.Bool(false)
+		}
+		if x.t == nil || y.t == nil {
+			return ts.Bool(x.t == nil && y.t == nil)
+		}
+		if !types.Identical(x.t, y.t) {
+			return ts.Bool(false)
+		}
+		return t.deepEqual(x.v, y.v, depth+1)
+	case *Cell:
+		y, ok := b.(*Cell)
+		if !ok {
+			return ts.Bool(false)
+		}
+		if x == nil || y == nil {
+			return ts.Bool(x == nil && y == nil)
+		}
+		if x == y {
+			return ts.Bool(true)
+		}
+		return t.deepEqual(x.v, y.v, depth+1)
+	case *MapObj:
+		y, ok := b.(*MapObj)
+		if !ok {
+			return ts.Bool(false)
+		}
+		if x == nil || y == nil {
+			return ts.Bool(x == nil && y == nil)
+		}
+		if x == y {
+			return ts.Bool(true)
+		}
+		if len(x.ents) != len(y.ents) {
+			return ts.Bool(false)
+		}
+		r := ts.Bool(true)
+		for _, ex := range x.ents {
+			hit := ts.Bool(false)
+			for _, ey := range y.ents {
+				hit = ts.Or(hit, ts.And(t.deepEqual(ex.k, ey.k, depth+1), t.deepEqual(ex.c.v, ey.c.v, depth+1)))
+			}
+			r = ts.And(r, hit)
+		}
+		return r
+	case Slice:
+		y, ok := b.(Slice)
+		if !ok {
+			return ts.Bool(false)
+		}
+		if x.isNil != y.isNil || x.n != y.n {
+			return ts.Bool(false)
+		}
+		r := ts.Bool(true)
+		for i := 0; i < x.n; i++ {
+			r = ts.And(r, t.deepEqual(x.cells[i].v, y.cells[i].v, depth+1))
+		}
+		return r
+	case *Struct:
+		y, ok := b.(*Struct)
+		if !ok || len(x.f) != len(y.f) {
+			return ts.Bool(false)
+		}
+		r := ts.Bool(true)
+		for i := range x.f {
+			r = ts.And(r, t.deepEqual(x.f[i].v, y.f[i].v, depth+1))
+		}
+		return r
+	case *Array:
+		y, ok := b.(*Array)
+		if !ok || len(x.e) != len(y.e) {
+			return ts.Bool(false)
+		}
+		r := ts.Bool(true)
+		for i := range x.e {
+			r = ts.And(r, t.deepEqual(x.e[i].v, y.e[i].v, depth+1))
+		}
+		return r
+	case *Closure:
+		y, ok := b.(*Closure)
+		return ts.Bool(ok && x == nil && y == nil)
+	case *ChanObj:
+		y, ok := b.(*ChanObj)
+		return ts.Bool(ok && x == y)
+	case *ErrObj:
+		y, ok := b.(*ErrObj)
+		return ts.Bool(ok && x == y)
+	}
+	e.unsupported(fmt.Sprintf("reflect.DeepEqual on %T", a))
+	return nil
+}
+
+// addrOf gives heap objects a stable fake address (what reflect.Value.Pointer reports)
+func (e *Exec) addrOf(obj any) uint64 {
+	if e.addrs == nil {
+		e.addrs = map[any]uint64{}
+	}
+	if a, ok := e.addrs[obj]; ok {
+		return a
+	}
+	a := uint64(0xc000100000) + uint64(len(e.addrs))*0x40
+	e.addrs[obj] = a
+	return a
+}
+
+func init() {
+	stubs["reflect.DeepEqual"] = func(t *Thread, fn *ssa.Function, args []Value, pos token.Pos) Value {
+		return t.deepEqual(args[0], args[1], 0)
+	}
+	ptr := func(t *Thread, fn *ssa.Function, args []Value, pos token.Pos) Value {
+		e := t.e
+		r := rv(args)
+		if !r.valid {
+			t.goPanicf(pos, "reflect: call of reflect.Value.Pointer on zero Value", nil)
+		}
+		switch x := t.conc(r.v).(type) {
+		case *Cell:
+			if x == nil {
+				return e.ts.BV(64, 0)
+			}
+			return e.ts.BV(64, e.addrOf(x))
+		case *MapObj:
+			if x == nil {
+				return e.ts.BV(64, 0)
+			}
+			return e.ts.BV(64, e.addrOf(x))
+		case *ChanObj:
+			if x == nil {
+				return e.ts.BV(64, 0)
+			}
+			return e.ts.BV(64, e.addrOf(x))
+		case *Closure:
+			if x == nil {
+				return e.ts.BV(64, 0)
+			}
+			return e.ts.BV(64, e.addrOf(x.fn))
+		case Slice:
+			if x.isNil {
+				return e.ts.BV(64, 0)
+			}
+			if len(x.cells) == 0 {
+				return e.ts.BV(64, 0xc000000000) // runtime.zerobase
+			}
+			return e.ts.BV(64, e.addrOf(x.cells[0]))
+		}
+		t.goPanicf(pos, "reflect: call of reflect.Value.Pointer on a non-pointer Value", nil)
+		return nil
+	}
+	stubs["(reflect.Value).Pointer"] = ptr
+	stubs["(reflect.Value).UnsafePointer"] = ptr
+
+	// ---- time.Ticker: a periodic timer on the virtual clock (ticks are dropped while the channel is full)
+	stubs["time.NewTicker"] = func(t *Thread, fn *ssa.Function, args []Value, pos token.Pos) Value {
+		e := t.e
+		d := args[0].(*Term)
+		if t.truth(e.ts.Not(e.ts.BVCmp("bvslt", e.ts.BV(64, 0), d)), "ticker.period<=0") {
+			t.goPanicf(pos, "non-positive interval for NewTicker", nil)
+		}
+		tt := fn.Signature.Results().At(0).Type().(*types.Pointer).Elem()
+		cell := e.newCell(e.zero(tt))
+		tm := e.addTimer(d)
+		tm.ch = e.newChan(1)
+		tm.ch.timer = tm
+		tm.period = d
+		tm.owner = cell
+		e.timersCreated++
+		cell.v.(*Struct).f[0].v = tm.ch
+		if e.timerObjs == nil {
+			e.timerObjs = map[*Cell]*Timer{}
+		}
+		e.timerObjs[cell] = tm
+		return cell
+	}
+	stubs["(*time.Ticker).Stop"] = func(t *Thread, fn *ssa.Function, args []Value, pos token.Pos) Value {
+		e := t.e
+		cell := t.derefPtr(args[0], pos)
+		if tm := e.timerOf(cell); tm != nil {
+			tm.fired = true
+			tm.period = nil
+		}
+		return nil
 	}
 }
